@@ -320,7 +320,7 @@ PROPS = {
         'gen_sections': [],
         'drivers': [{'name': 'c20'}],
         'reasons': ['C20.'],
-        'class_fields': {'start20': ['key', 'ingress', 'clientid', 'jwk', 'secret', 'wellknown', 'mode', 'redis', 'cookiename', 'serverurl', 'domain', 'defaulturl', 'secure', 'samesite', 'upstream', 'shutdown', 'alg', 'acr', 'locale', 'listening'],
+        'class_fields': {'start20': ['key', 'ingress', 'clientid', 'jwk', 'secret', 'wellknown', 'mode', 'redis', 'cookiename', 'serverurl', 'domain', 'defaulturl', 'secure', 'samesite', 'upstream', 'shutdown', 'alg', 'acr', 'locale', 'disco', 'listening'],
                          'logscan': ['kind']},
         'nontrivial': {'logscan': lambda f: False},
         'rule': "c20 driver: the REAL binary built from the working tree is launched (16 at a time) against a loopback discovery document, JWKS and miniredis with: the valid base configuration, every single deviation of 20 factors "
